@@ -96,13 +96,15 @@ class YAMLPath:
         if not isinstance(other, (YAMLPath, str)):
             return False
 
-        equiv_this = YAMLPath(self)
-        equiv_this.separator = PathSeparators.FSLASH
-        cmp_this = str(equiv_this)
-
-        equiv_that = YAMLPath(other)
-        equiv_that.separator = PathSeparators.FSLASH
-        cmp_that = str(equiv_that)
+        # Compare the parsed segments rather than any rendering of them:  the
+        # escapes and demarcation which a notation requires are not part of
+        # what a path selects.
+        cmp_this = [
+            (seg_type, str(seg_attrs))
+            for (seg_type, seg_attrs) in YAMLPath(self).escaped]
+        cmp_that = [
+            (seg_type, str(seg_attrs))
+            for (seg_type, seg_attrs) in YAMLPath(other).escaped]
 
         return cmp_this == cmp_that
 
